@@ -39,6 +39,13 @@ func main() {
 		runScript(id, f.Seed, i, nil, cf, meta)
 		id++
 	}
+	// Stop / reshard while the endpoint stalls or fails for > 2.5 s with full channels and non-empty
+	// partial batches: FlushAndShutdown has to keep retrying (a few seconds of real time each)
+	nFlush := f.Count(4, 16)
+	for i := 0; i < nFlush; i++ {
+		runFlushRetry(id, f.Seed, 2000000+i, f.Out, cf, meta)
+		id++
+	}
 	nConc := f.Count(24, 150)
 	for i := 0; i < nConc; i++ {
 		runConc(id, f.Seed, 1000000+i, f.Out, cf, meta)
